@@ -57,14 +57,14 @@ CAPS = [8, 24, 40, 60, 85, 100]
 def bounds(tier, seed):
     th = tier == "thorough"
     return {
-        "doc_periods": [1, 5, 15] if not th else [1, 5, 7.5, 15, 60],
+        "doc_periods": [1, 5, 8, 15] if not th else [1, 5, 7.5, 8, 15, 45, 60],  # 8 and 45 min do not divide an hour
         "zones": ["America/Los_Angeles", "Asia/Kolkata", "Australia/Lord_Howe"],
         "energies": [0.2, 3, 10, 40] if not th else [0.2, 1, 3, 7.7, 10, 40, 99],
         "max_len": [None, 1, 12],
         "max_power": [3.3, 6.656],
         "fit_energies": [0.1, 0.5, 1, 1.6, 3, 6, 7.9, 8, 8.1, 12, 20, 24, 30, 40, 55, 60] if not th else [round(0.1 * i, 1) for i in range(1, 80)] + list(range(8, 101, 1)),
         "fit_stays": [1, 2, 3, 6, 12, 13, 24, 36, 48, 72, 96, 144, 288] if not th else list(range(1, 289)),
-        "fit_vp": [(208, 5), (240, 5), (208, 15), (208, 1)] if not th else [(208, 5), (240, 5), (208, 15), (208, 1), (277, 5), (120, 5), (208, 60)],
+        "fit_vp": [(208, 5), (240, 5), (208, 15), (208, 1), (208, 8)] if not th else [(208, 5), (240, 5), (208, 15), (208, 1), (277, 5), (120, 5), (208, 60), (208, 8), (240, 45), (208, 7.5)],
     }
 
 
